@@ -261,6 +261,147 @@ def _prod_skip(fac, i, r, k):
     return p
 
 
+# --------------------------------------------------------------------------------------- fg_setup.setup
+_OBJ = ["gaussian", "bernoulli_odds", "bernoulli_logit", "poisson", "poisson_log", "rayleigh", "gamma", "huber", "negative_binomial", "beta"]
+_PARAM_KW = {"huber": "threshold", "negative_binomial": "num_trials", "beta": "b"}
+
+
+def run_setup(a):
+    import functools
+    import numpy as np
+    import pyttb as ttb
+    from pyttb.gcp import fg_setup, handles
+    obj = handles.Objectives(a["obj"])
+    d = a["data"]
+    data = None
+    if d is not None:
+        vals = np.array([h / 2.0 for h in d["halves"]], dtype=float)
+        if d["sparse"]:
+            n = len(vals)
+            data = ttb.sptensor(np.array([[k, 0] for k in range(n)], dtype=int), vals.reshape((n, 1)), (n, 2))
+        else:
+            data = ttb.tensor(vals.reshape((len(vals), 1)).copy())
+    param = 0.75 if a["has_param"] else None
+    try:
+        fh, gh, lb = fg_setup.setup(obj, data, param)
+    except ValueError as ex:
+        return {"accept": False, "msg": str(ex)[:120]}
+    name = _OBJ[a["obj"]]
+
+    def ident(h, want):
+        if name in _PARAM_KW:
+            return bool(isinstance(h, functools.partial) and h.func is want and h.keywords == {_PARAM_KW[name]: param} and not h.args)
+        return h is want
+    return {"accept": True, "lb": (None if lb == -np.inf else (int(lb) if float(lb) == int(lb) else str(lb))),
+            "fh_ok": ident(fh, getattr(handles, name)), "gh_ok": ident(gh, getattr(handles, name + "_grad"))}
+
+
+def check_setup(a, o):
+    from vcheck import gz, gzlist, gnat, gopt
+    d = a["data"]
+    data = "None" if d is None else f"(Some ({'true' if d['sparse'] else 'false'}, {gzlist(d['halves'])}))"
+    obj = f"(obj_of {gnat(a['obj'])})"
+    e = f"Bool.eqb (setup_accepts {obj} {'true' if a['has_param'] else 'false'} {data}) {'true' if o['accept'] else 'false'}"
+    if o["accept"]:
+        if not (o["lb"] is None or isinstance(o["lb"], int)):
+            return "false"
+        e += f" && opt_eqb Z.eqb (lower_bound_z {obj}) {gopt(o['lb'], gz)} && {'true' if o['fh_ok'] and o['gh_ok'] else 'false'}"
+    return e
+
+
+def oracle_setup(a, o):
+    """independent table (from the property text / the docstrings of the losses), not the Coq one"""
+    name = _OBJ[a["obj"]]
+    lb = {"gaussian": None, "bernoulli_logit": None, "poisson_log": None, "huber": None}.get(name, 0)
+    if o["accept"]:
+        if not (o["fh_ok"] and o["gh_ok"]):
+            return f"setup({name}) does not return the pair (handles.{name}, handles.{name}_grad)"
+        if o["lb"] != lb:
+            return f"setup({name}) attaches the lower bound {o['lb']}; the loss's domain needs {lb}"
+    return None
+
+
+# --------------------------------------------------------------------------------------- estimate with component weights
+def _col_norms(fac, R):
+    """2-norms of the factor columns as floats (harness side: the square roots are not computed in Coq)"""
+    import math as _m
+    return [[_m.sqrt(sum(row[r] * row[r] for row in A)) for r in range(R)] for A in fac]
+
+
+def run_estimate_lam(a, fac, f, g):
+    import numpy as np
+    import pyttb as ttb
+    import warnings
+    from pyttb.gcp import fg, fg_est
+    lam = np.array(a["lam"], dtype=float)
+
+    def model():          # estimate normalises the caller's model in place: a fresh one per call
+        return ttb.ktensor([x.copy() for x in fac], lam.copy())
+    shp = a["shape"]
+    if a["mode"] == "full":
+        allsubs = _all_subs(shp)
+        subs = np.array(allsubs, dtype=int).reshape((len(allsubs), len(shp)))
+        xs, ws, crng = np.array(a["data"], dtype=float), np.ones(len(allsubs)), None
+    else:
+        subs = np.array(a["subs"], dtype=int).reshape((len(a["subs"]), len(shp)))
+        xs, ws = np.array(a["xs"], dtype=float), np.array(a["ws"], dtype=float)
+        crng = None if a["crng"] is None else np.array(a["crng"], dtype=int)
+    fr = lambda x: str(Fraction(float(x)))
+    mats = lambda G: [[[fr(v) for v in row] for row in np.asarray(M).reshape((np.asarray(M).shape[0], -1))] for M in G]
+    with warnings.catch_warnings():
+        warnings.simplefilter("ignore")
+        F, G = fg_est.estimate(model(), subs.copy(), xs.copy(), ws.copy(), f, g, a["lcheck"], None if crng is None else crng.copy())
+        F1 = fg_est.estimate(model(), subs.copy(), xs.copy(), ws.copy(), f, None, a["lcheck"], None if crng is None else crng.copy())
+        G1 = fg_est.estimate(model(), subs.copy(), xs.copy(), ws.copy(), None, g, a["lcheck"], None if crng is None else crng.copy())
+    o = {"F": fr(F), "G": mats(G), "F1": fr(F1), "G1": mats(G1)}
+    if a["mode"] == "full":
+        X = ttb.tensor(np.array(a["data"], dtype=float).reshape(tuple(shp), order="F"))
+        o["F2"] = fr(fg.evaluate(model(), X, None, f, None))
+    return o
+
+
+def check_estimate_lam(a, o, As):
+    import math as _m
+    from vcheck import gz, gzlist, gnlist, gnmat, gnat, gq
+    import tgen
+    shp, R, lam = a["shape"], a["R"], a["lam"]
+    used = a["lcheck"] and any(w != 1 for w in lam)
+    norms = _col_norms(a["factors"], R)
+    cs = []
+    for k in range(len(shp)):
+        row = []
+        for r in range(R):
+            if not used:
+                row.append(Fraction(1))
+            elif k == 0:
+                P = _m.prod(norms[l][r] for l in range(1, len(shp)))
+                row.append(Fraction(1.0 / P) if P > 0 else Fraction(0))
+            else:
+                row.append(Fraction(norms[k][r]))
+        cs.append(row)
+    gqm = lambda m: "[" + "; ".join("[" + "; ".join(gq(Fraction(x)) for x in r) + "]" for r in m) + "]"
+    gcs = "[" + "; ".join("[" + "; ".join(gq(x) for x in r) + "]" for r in cs) + "]"
+    gobs = lambda G: "[" + "; ".join(gqm(M) for M in G) + "]"
+    fid, lc = gnat(a["fid"]), ("true" if a["lcheck"] else "false")
+    if a["mode"] == "full":
+        n = _m.prod(shp)
+        sargs = f"{gnat(R)} (allsubs {gnlist(shp)}) {gzlist(a['data'])} {gzlist([1] * n)} (@nil nat)"
+    else:
+        sargs = f"{gnat(R)} {gnmat(a['subs'])} {gzlist(a['xs'])} {gzlist(a['ws'])} {gnlist(a['crng'] or [])}"
+    mF = f"(zest_lam_F {fid} {lc} {gzlist(lam)} {As} {sargs})"
+    mG = f"(zest_lam_G {fid} {lc} {gzlist(lam)} {As} {sargs} {gnlist(shp)})"
+    e = (f"zq_close {gq(Fraction(o['F']))} {mF} && zq_close {gq(Fraction(o['F1']))} {mF} && "
+         f"scaled_close {gcs} {mG} {gobs(o['G'])} && scaled_close {gcs} {mG} {gobs(o['G1'])}")
+    if a["mode"] == "full":
+        K = tgen.gktensor(lam, a["factors"])
+        X = tgen.gdense(shp, a["data"])
+        e += f" && zq_close {gq(Fraction(o['F2']))} (zeval_F {fid} {K} {X} None)"
+        if a["lcheck"] or all(w == 1 for w in lam):
+            # the estimator on every entry with unit weights = the exact evaluation of the SAME model (weights included)
+            e += f" && zq_close {gq(Fraction(o['F']))} (zeval_F {fid} {K} {X} None)"
+    return e
+
+
 def oracle_tensor(op, a, o):
     shp, R, fac = a["shape"], a["R"], a["factors"]
     subs_all = _all_subs(shp)
@@ -275,6 +416,23 @@ def oracle_tensor(op, a, o):
         return None
     lam = a.get("lam", [1] * R)
     f, g = PF[a["fid"]], PG[a["fid"]]
+    if op == "estimate_lam":
+        # independent statement of what C12 says here: with lambda_check (or unit weights) the estimate on every entry with unit
+        # sample weights is the exact objective of the weighted model; on a sample it is the weighted sample sum of the loss at the
+        # weighted model's values
+        use = a["lcheck"] or all(w == 1 for w in lam)
+        eff = lam if use else [1] * R
+        mv = lambda i: sum(eff[r] * _prod_skip(fac, i, r, -1) for r in range(R))
+        if a["mode"] == "full":
+            F = sum(f(a["data"][n], mv(i)) for n, i in enumerate(subs_all))
+        else:
+            crng = set(a["crng"] or [])
+            F = sum(wq * (f(x, mv(i)) - (f(0, mv(i)) if q in crng else 0)) for q, (i, x, wq) in enumerate(zip(a["subs"], a["xs"], a["ws"])))
+        got = Fraction(o["F"])
+        if abs(got - F) > Fraction(1, 10 ** 9) * max(1, abs(F)):
+            return (f"estimate(lambda_check={a['lcheck']}) on a model with weights {lam} returned F = {float(got)}; the "
+                    f"{'exact objective of the same model on every entry' if a['mode'] == 'full' else 'weighted sample sum'} is {F}")
+        return None
 
     def mval(i):
         return sum(lam[r] * _prod_skip(fac, i, r, -1) for r in range(R))
